@@ -74,7 +74,14 @@ func (c *Ctx) Sample(s interface{}) {
 }
 
 func (c *Ctx) Violate(prop, sig, what string, replay interface{}) {
-	if len(c.Res.Violations) < 50 {
+	// at most three examples per (property, signature), so that one frequent violation does not crowd out the others
+	k := 0
+	for _, v := range c.Res.Violations {
+		if v.Property == prop && v.Signature == sig {
+			k++
+		}
+	}
+	if k < 3 && len(c.Res.Violations) < 120 {
 		c.Res.Violations = append(c.Res.Violations, Violation{prop, sig, what, replay})
 	}
 }
